@@ -129,6 +129,21 @@ fn substitutes(r: &Rich, ent: &Entry, idx: usize, kind: &SlotKind, pool: usize) 
     out
 }
 
+/// a v2 instruction built without remaining accounts (`remaining_accounts_info: None`, the last byte of its data), re-issued
+/// with one slice of `accounts_type` naming `keys` appended after its accounts
+pub fn with_supplemental(ix: &solana_program::instruction::Instruction, accounts_type: u8, keys: &[Pubkey]) -> solana_program::instruction::Instruction {
+    let mut out = ix.clone();
+    assert_eq!(out.data.pop(), Some(0), "instruction was built with remaining accounts already");
+    out.data.push(1); // Some
+    out.data.extend_from_slice(&1u32.to_le_bytes()); // one slice
+    out.data.push(accounts_type);
+    out.data.push(keys.len() as u8);
+    for k in keys {
+        out.accounts.push(solana_program::instruction::AccountMeta::new(*k, false));
+    }
+    out
+}
+
 pub fn check_world(spec: &RichSpec, l: &mut Local) -> Result<(), String> {
     let Some(r) = Rich::try_build(spec) else {
         l.count("world_build_refused");
@@ -159,6 +174,61 @@ pub fn check_world(spec: &RichSpec, l: &mut Local) -> Result<(), String> {
                 }
             }
         }
+        // v2 swaps take extra ("supplemental") tick arrays after the fixed slots: an initialized tick array of ANOTHER pool given
+        // there must be rejected too, wherever its address sorts among the pool's own arrays
+        let supp: &[(u8, usize)] = match ent.name {
+            "swap_v2" => &[(6, 0)],
+            "swap_v2(adaptive)" => &[(6, 2)],
+            "two_hop_swap_v2" => &[(7, 0), (8, 1)],
+            _ => &[],
+        };
+        for (accounts_type, which) in supp {
+            let pool_key = r.w.pools[[r.p0, r.p1, r.pa][*which]].key;
+            let foreign: Vec<Pubkey> = r
+                .w
+                .bank
+                .accounts
+                .iter()
+                .filter(|(_, a)| a.owner == WP && a.data.len() >= 44)
+                .filter_map(|(k, a)| {
+                    use anchor_lang::Discriminator;
+                    let owner_pool = if a.data[..8] == *whirlpool::state::FixedTickArray::DISCRIMINATOR && a.data.len() >= 9988 {
+                        Pubkey::new_from_array(a.data[9956..9988].try_into().unwrap())
+                    } else if a.data[..8] == *whirlpool::state::DynamicTickArray::DISCRIMINATOR {
+                        Pubkey::new_from_array(a.data[12..44].try_into().unwrap())
+                    } else {
+                        return None;
+                    };
+                    (owner_pool != pool_key).then_some(*k)
+                })
+                .collect();
+            let pool_idx = [r.p0, r.p1, r.pa][*which];
+            let own_keys: Vec<Pubkey> = ent.slots.iter().filter(|(_, k, p)| *k == SlotKind::TickArray && *p == pool_idx).map(|(i, _, _)| ent.ix.accounts[*i].pubkey).collect();
+            for f in foreign {
+                let ix = with_supplemental(&ent.ix, *accounts_type, &[f]);
+                let mut wc = r.w.clone();
+                let o = wc.exec(&ix);
+                l.count("substituted/SupplementalTickArray");
+                if own_keys.iter().all(|k| *k < f) {
+                    l.count("supplemental_foreign_array_sorting_after_all_own_arrays");
+                }
+                l.nontrivial(hash_of(&(ent.name, "supplemental", f, spec_h)));
+                if o.ok() {
+                    return Err(format!("{}: accepted a tick array of another pool as supplemental tick array (accounts type {accounts_type})", ent.name));
+                }
+            }
+            // positive control: one of the pool's own arrays repeated as a supplemental account changes nothing
+            if let Some(own) = own_keys.first() {
+                let ix = with_supplemental(&ent.ix, *accounts_type, &[*own]);
+                let mut wc = r.w.clone();
+                let o = wc.exec(&ix);
+                if o.ok() {
+                    l.count("supplemental_own_array_accepted");
+                } else {
+                    l.count(&format!("POSITIVE_CONTROL_FAILED/supplemental_own_array/{}/{}/{}", ent.name, accounts_type, o.code().unwrap_or(0)));
+                }
+            }
+        }
         l.count("instructions_with_passing_baseline");
     }
     l.sample(|| json!({"world": spec, "instructions": names}));
@@ -171,7 +241,8 @@ pub fn def() -> CheckDef {
         rule: "the rich world of C04 (three pools over overlapping mints and identical tick-array start indexes, second config, positions in every pool, two rewards per \
                pool); for every fund-moving instruction (swap v1/v2, adaptive swap, two-hop v1/v2, increase/decrease v1/v2, by-token-amounts, reposition, collect fees / \
                reward / protocol fees v1/v2, set-reward-emissions) a slot table tags each account; baseline must succeed, then every slot is substituted with \
-               well-formed accounts of the same type belonging to another pool / mint / position / reward index / program: every substituted call must fail.  \
+               well-formed accounts of the same type belonging to another pool / mint / position / reward index / program: every substituted call must fail; for the v2 swaps every initialized tick array of another pool is additionally offered as a *supplemental* tick array \
+               (any position in the key order relative to the pool's own arrays) and must be refused.  \
                The table is enumerated completely on every world; distinct non-trivial = (instruction, slot, substitute kind, world).",
         assumptions: vec!["nsvm runtime as in DESIGN.md §5", "slots where substitution is legitimate (funder, receiver, any destination of the right mint) are not in the table"],
         subs: vec![sub("table", 1600, 20_000, rich_spec_strategy, |c: &RichSpec, l: &mut Local| check_world(c, l))],
